@@ -23,7 +23,7 @@ ASSUMPTIONS = ['the invariant of the inductive step: scratch sets are empty betw
 BOUNDS = {'quick': 'all Unicode strings of length <= 4 (exact names); inductive step with <= 2 fired actions over 5 names; all sequences of <= 3 calls over 12 strings',
           'thorough': 'all Unicode strings of length <= 5 (path budget 400000); sequences of <= 4 calls'}
 OUTSIDE = ['strings longer than the bound (names exactness)', 'evaluation values (C03)']
-DEADLINE = {'quick': 170, 'thorough': 2400}
+DEADLINE = {'quick': 600, 'thorough': 2400}
 FUNCS = ['MathParser.parse/raw_parse/reset_storage', 'MathParser.variable_parse_action/function_parse_action/suffix_parse_action', 'MathParser.get_grammar (141 pyparsing elements)',
          'BracketValidator.validate', 'expressions.parse (shared PARSER)', 'pyparsing And/MatchFirst/Opt/ZeroOrMore/Forward/Group/Suppress/NotAny/FollowedBy/DelimitedList/Literal/StringEnd']
 STUBS = ['pyparsing leaf shims: ParserElement.preParse, Word.parseImpl, CaselessLiteral.parseImpl, Combine.postParse (validated at start-up)',
